@@ -91,4 +91,15 @@ impl Drop for UnlockLog {
     }
 }
 
+static FAIL_ADDS: AtomicUsize = AtomicUsize::new(0);
+/// Make the next `n` EPOLL_CTL_ADD calls of serve_epoll fail.
+pub fn fail_next_adds(n: usize) {
+    FAIL_ADDS.store(n, Ordering::SeqCst);
+}
+pub(crate) fn take_add_failure() -> bool {
+    FAIL_ADDS
+        .fetch_update(Ordering::SeqCst, Ordering::SeqCst, |n| n.checked_sub(1))
+        .is_ok()
+}
+
 pub use crate::threadpool::{verif_run_pool, Task};
